@@ -102,23 +102,40 @@ SIG_ASSUME = ["hash primitive replaced by an injective transcript recorder via k
               "public-key primitive replaced by a mock SigningKey/VerifyingKey: sign returns the digest, verify accepts iff "
               "digest == signature bytes (ideal signature)", FMT_STUBS]
 C11_H = [
-    H("c11_fields_v4", "c11_sig", "quick", 600, "hash_signature_data + trailer, v4: every type/pk octet, creation time + opaque subpacket (critical bit symbolic)", SIGN_FUNCS, "hashed area 10 bytes"),
+    H("c11_fields_v4", "c11_sig", "quick", 600, "hash_signature_data + trailer, v4: every type/pk octet, creation time + Other subpacket (critical bit symbolic => refused)", SIGN_FUNCS, "hashed area 10 bytes"),
+    H("c11_fields_v4_exp", "c11_sig", "quick", 600, "as c11_fields_v4 with an Experimental (100..110) subpacket, critical bit allowed", SIGN_FUNCS, "hashed area 10 bytes"),
     H("c11_fields_v6", "c11_sig", "quick", 600, "hash_signature_data + trailer, v6 (u32 hashed length)", SIGN_FUNCS, "hashed area 10 bytes"),
-    H("c11_sign_data_v4_2", "c11_sig", "quick", 420, "v4 Binary|Text data signature over 2 symbolic bytes: digest == RFC 5.2.4 transcript; own verify accepts", SIGN_FUNCS, "doc 2 bytes; hashed area = creation time + 1 opaque subpacket (symbolic type/critical/body); pk alg octet symbolic"),
-    H("c11_sign_data_v6_2", "c11_sig", "quick", 420, "v6 (salted) data signature, as above", SIGN_FUNCS, "doc 2 bytes; 16-byte salt with 2 symbolic bytes"),
-    H("c11_sign_data_v4_3", "c11_sig", "thorough", 420, "v4 data signature over 3 symbolic bytes", SIGN_FUNCS, "doc 3 bytes"),
-    H("c11_sign_key_v4", "c11_sig", "quick", 420, "direct-key/key-revocation, v4 signer over v4|v6 signee: 0x99/0x9B framing", SIGN_FUNCS, "key bodies 3 and 5 symbolic bytes"),
-    H("c11_sign_key_v6", "c11_sig", "quick", 420, "direct-key/key-revocation, v6 signer", SIGN_FUNCS, "key bodies 3 and 5 symbolic bytes"),
-    H("c11_sign_subkey_binding_v4", "c11_sig", "quick", 420, "0x18 v4: primary then subkey framing", SIGN_FUNCS, "key bodies 3+4 bytes"),
-    H("c11_sign_subkey_binding_v6", "c11_sig", "thorough", 420, "0x18 v6", SIGN_FUNCS, "key bodies 3+4 bytes"),
-    H("c11_sign_primary_binding_v4", "c11_sig", "thorough", 420, "0x19 v4: primary then subkey framing, signer = subkey", SIGN_FUNCS, "key bodies 3+4 bytes"),
-    H("c11_sign_primary_binding_v6", "c11_sig", "quick", 420, "0x19 v6", SIGN_FUNCS, "key bodies 3+4 bytes"),
-    H("c11_sign_cert_v4", "c11_sig", "quick", 420, "certifications 0x10-0x13,0x30 over user id | attribute (0xB4|0xD1 len32)", SIGN_FUNCS, "key bodies 3 bytes, id body 3 bytes"),
-    H("c11_sign_cert_v6", "c11_sig", "thorough", 420, "certifications v6", SIGN_FUNCS, "key bodies 3 bytes, id body 3 bytes"),
-    H("c11_verify_v3_2", "c11_sig", "quick", 420, "v3 signature over RFC transcript (doc||type||time) accepted by verify", SIGN_FUNCS, "doc 2 bytes"),
+    H("c11_verify_v3_2", "c11_sig", "quick", 600, "v3 signature over RFC transcript (doc||type||time) accepted by verify", SIGN_FUNCS, "doc 2 bytes"),
+    H("c11_sign_data_v4_2", "c11_sig", "quick", 900, "v4 Binary|Text data signature over 2 symbolic bytes: digest handed to key == RFC 5.2.4 transcript; signed hash value = prefix", SIGN_FUNCS, "doc 2 bytes; hashed = creation time + opaque subpacket; pk octet symbolic"),
+    H("c11_sign_data_v4_2_exp", "c11_sig", "thorough", 900, "as above, Experimental subpacket with symbolic critical bit", SIGN_FUNCS, "see desc"),
+    H("c11_sign_data_v6_2", "c11_sig", "quick", 900, "v6 salted data signature, sign side", SIGN_FUNCS, "doc 2 bytes, 16-byte salt (2 symbolic)"),
+    H("c11_sign_data_v4_3", "c11_sig", "thorough", 900, "v4 data signature over 3 symbolic bytes", SIGN_FUNCS, "see desc"),
+    H("c11_verify_data_v4_2", "c11_sig", "quick", 900, "v4 binary data signature carrying the RFC digest is accepted by Signature::verify", SIGN_FUNCS, "see desc"),
+    H("c11_verify_data_v6_2", "c11_sig", "thorough", 900, "v6 binary data signature, verify side", SIGN_FUNCS, "see desc"),
+    H("c11_sign_key_v4", "c11_sig", "quick", 900, "direct-key/key-revocation v4 signer over v4|v6 signee: 0x99/0x9B framing, sign side", SIGN_FUNCS, "key bodies 3+5 bytes"),
+    H("c11_verify_key_v4", "c11_sig", "thorough", 900, "direct-key/key-revocation v4, verify side", SIGN_FUNCS, "key bodies 3+5 bytes"),
+    H("c11_sign_subkey_binding_v4", "c11_sig", "quick", 900, "0x18 v4 sign side: primary then subkey framing", SIGN_FUNCS, "key bodies 3+4 bytes"),
+    H("c11_verify_subkey_binding_v4", "c11_sig", "thorough", 900, "0x18 v4 verify side", SIGN_FUNCS, "key bodies 3+4 bytes"),
+    H("c11_sign_primary_binding_v4", "c11_sig", "thorough", 900, "0x19 v4 sign side (signer = subkey)", SIGN_FUNCS, "key bodies 3+4 bytes"),
+    H("c11_verify_primary_binding_v4", "c11_sig", "quick", 900, "0x19 v4 verify side", SIGN_FUNCS, "key bodies 3+4 bytes"),
+    H("c11_sign_key_v6", "c11_sig", "thorough", 900, "direct-key/key-revocation v6 signer over v4|v6 signee: 0x99/0x9B framing, sign side", SIGN_FUNCS, "key bodies 3+5 bytes"),
+    H("c11_verify_key_v6", "c11_sig", "quick", 900, "direct-key/key-revocation v6, verify side", SIGN_FUNCS, "key bodies 3+5 bytes"),
+    H("c11_sign_subkey_binding_v6", "c11_sig", "thorough", 900, "0x18 v6 sign side: primary then subkey framing", SIGN_FUNCS, "key bodies 3+4 bytes"),
+    H("c11_verify_subkey_binding_v6", "c11_sig", "quick", 900, "0x18 v6 verify side", SIGN_FUNCS, "key bodies 3+4 bytes"),
+    H("c11_sign_primary_binding_v6", "c11_sig", "quick", 900, "0x19 v6 sign side (signer = subkey)", SIGN_FUNCS, "key bodies 3+4 bytes"),
+    H("c11_verify_primary_binding_v6", "c11_sig", "thorough", 900, "0x19 v6 verify side", SIGN_FUNCS, "key bodies 3+4 bytes"),
+    H("c11_sign_cert_v4_generic", "c11_sig", "thorough", 900, "certification sign_cert_v4_generic over user id | attribute (0xB4|0xD1 len32)", SIGN_FUNCS, "key bodies 3 bytes, id body 3 bytes"),
+    H("c11_sign_cert_v4_positive", "c11_sig", "quick", 900, "certification sign_cert_v4_positive over user id | attribute (0xB4|0xD1 len32)", SIGN_FUNCS, "key bodies 3 bytes, id body 3 bytes"),
+    H("c11_sign_cert_v4_revocation", "c11_sig", "thorough", 900, "certification sign_cert_v4_revocation over user id | attribute (0xB4|0xD1 len32)", SIGN_FUNCS, "key bodies 3 bytes, id body 3 bytes"),
+    H("c11_sign_cert_v6_positive", "c11_sig", "quick", 900, "certification sign_cert_v6_positive over user id | attribute (0xB4|0xD1 len32)", SIGN_FUNCS, "key bodies 3 bytes, id body 3 bytes"),
+    H("c11_sign_cert_v6_persona", "c11_sig", "thorough", 900, "certification sign_cert_v6_persona over user id | attribute (0xB4|0xD1 len32)", SIGN_FUNCS, "key bodies 3 bytes, id body 3 bytes"),
+    H("c11_sign_cert_v4_casual", "c11_sig", "thorough", 900, "certification sign_cert_v4_casual over user id | attribute (0xB4|0xD1 len32)", SIGN_FUNCS, "key bodies 3 bytes, id body 3 bytes"),
+    H("c11_verify_cert_v4_positive", "c11_sig", "quick", 900, "certification verify_cert_v4_positive over user id | attribute (0xB4|0xD1 len32)", SIGN_FUNCS, "key bodies 3 bytes, id body 3 bytes"),
+    H("c11_verify_cert_v6_generic", "c11_sig", "thorough", 900, "certification verify_cert_v6_generic over user id | attribute (0xB4|0xD1 len32)", SIGN_FUNCS, "key bodies 3 bytes, id body 3 bytes"),
+    H("c11_verify_cert_v4_revocation", "c11_sig", "thorough", 900, "certification verify_cert_v4_revocation over user id | attribute (0xB4|0xD1 len32)", SIGN_FUNCS, "key bodies 3 bytes, id body 3 bytes"),
 ]
 PROPS["C11"] = {
-    "inject": [("src/lib.rs", "c11_sig")],
+    "inject": [("src/packet/signature/types.rs", "c11_sig")],
     "mem_gb": 14,
     "level_text": "Bounded model checking of the real signing/verifying code with the hash and public-key primitives replaced by "
                   "ideal models: for every value of the symbolic fields the digest handed to the key equals the RFC 9580 5.2.4 "
@@ -210,22 +227,4 @@ PROPS["C09"] = {
     ],
 }
 
-PROPS["PROBE"] = {"claimed": False, "inject": [("src/lib.rs", "probe")], "mem_gb": 6, "level_text": "", "level_note": "", "bounds": "", "outside": "", "assumptions": [],
-    "harnesses": [H(n, "probe", "quick", 200) for n in ["q1_parse_only", "q2_parse_write", "q3_parse_write_simple_only"]]}
 
-# ------------------------------------------------------------------------------------------------
-PROPS["C04"] = {
-    "inject": [("src/lib.rs", "c04_aead")],
-    "mem_gb": 14,
-    "level_text": "Bounded model checking for absence of panics (index, slice, arithmetic overflow, unwrap/expect, unreachable) and "
-                  "bounded termination (unwinding assertions) of the real parsing / post-decryption code on attacker-chosen octets.",
-    "level_note": "Each harness fixes the input length and leaves the octets symbolic; primitives run on concrete keys. Error formatting "
-                  "and logging are no-ops. Whole-message parsing through Message::from_bytes exceeds goto-instrument's memory and is outside.",
-    "bounds": "per harness, see evidence",
-    "outside": "stack depth of nested containers; inputs longer than the harness lengths; panics inside Debug formatting; the primitives",
-    "assumptions": [FMT_STUBS],
-    "harnesses": [
-        H("c04_seipdv2_header_octets", "c04_aead", "quick", 1200, "StreamDecryptor::new_rfc9580 for every cipher/AEAD/chunk octet with a key of matching length: no panic",
-          ["crypto::aead::StreamDecryptor::new_rfc9580", "crypto::aead::aead_setup_rfc9580", "crypto::aead::AeadAlgorithm::{nonce_size,tag_size}", "crypto::sym::SymmetricKeyAlgorithm::key_size"], "3 symbolic octets"),
-    ],
-}
